@@ -268,7 +268,47 @@ def gen_merge_linked_case(rnd):
     return {'graph': g, 'trace': tr, 'cfg': cfg, 'linked': linked}
 
 
+def gen_grid_case(rnd):
+    """a 3x3 or 4x4 street grid (two-way streets, a few one-way) and a SPARSE trace: consecutive fixes are two or three blocks
+    apart, so that chains of non-emitting states of depth >= 2 are needed; a small lattice width"""
+    k = rnd.choice([3, 3, 4])
+    xs = [0, 2, 4] if k == 3 else [0, 1.5, 3, 4]
+    L = labels(k * k, rnd.choice(['str', 'int']))
+    idx = lambda r, c: L[r * k + c]
+    jit = lambda: rnd.choice([0, 0, 0.25, -0.25]) if rnd.random() < 0.5 else 0
+    pts = {idx(r, c): (min(4.5, max(-0.5, xs[r] + jit())), min(4.5, max(-0.5, xs[c] + jit()))) for r in range(k) for c in range(k)}
+    g = {l: (pts[l], []) for l in L}
+    for r in range(k):
+        for c in range(k):
+            for (r2, c2) in ((r, c + 1), (r + 1, c)):
+                if r2 < k and c2 < k:
+                    a, b = idx(r, c), idx(r2, c2)
+                    one = rnd.random() < 0.2
+                    g[a][1].append(b)
+                    if not one:
+                        g[b][1].append(a)
+    n = rnd.choice([2, 3, 3, 4])
+    # walk along the grid, one fix every 2-3 blocks
+    cur = rnd.choice(L)
+    tr = []
+    for i in range(n):
+        p = g[cur][0]
+        tr.append((p[0] + rnd.choice([0, 0.25, -0.25]), p[1] + rnd.choice([0, 0.25, -0.25])))
+        for _ in range(rnd.choice([2, 2, 3])):
+            nb = [b for b in g[cur][1]]
+            if not nb:
+                break
+            cur = rnd.choice(nb)
+    cfg = gen_cfg(rnd, ne=True, width=rnd.choice([1, 2, 2, 3]), cutoffs=rnd.random() < 0.4)
+    cfg['obs_noise'] = rnd.choice([0.5, 1, 2])
+    if cfg.get('max_dist'):
+        cfg['max_dist'] = 3
+    return {'graph': g, 'trace': tr, 'cfg': cfg}
+
+
 def gen_case(rnd, **kw):
+    if kw.get('grid'):
+        return gen_grid_case(rnd)
     if kw.get('laps'):
         g, tr = gen_laps_case(rnd)
         cfg = gen_cfg(rnd, family=kw.get('family'), ne=kw.get('ne'), width=kw.get('width'), only_edges=kw.get('only_edges'),
